@@ -123,7 +123,7 @@ Definition log_eqb (a b : log) : bool :=
   (l_idx a =? l_idx b) && (l_addr a =? l_addr b) && (l_body a =? l_body b).
 Definition tx_eqb (a b : tx) : bool :=
   (t_idx a =? t_idx b) && (t_hash a =? t_hash b) && (t_status a =? t_status b)
-  && list_eqb log_eqb (t_logs a) (t_logs b).
+  && list_eqb log_eqb (t_logs a) (t_logs b) && list_eqb N.eqb (t_traces a) (t_traces b).
 Definition blk_eqb (a b : blk) : bool :=
   (b_num a =? b_num b) && (b_hash a =? b_hash b) && (b_time a =? b_time b)
   && list_eqb tx_eqb (b_txs a) (b_txs b).
@@ -143,7 +143,7 @@ Definition blks_eqb (a b : list blk) : bool := list_eqb blk_eqb (map canon_blk a
 (* ---- Client.Get, sequential ---- *)
 Record gobs := mkGobs {
   go_res : option (list blk);     (* None = error *)
-  go_nbase : N; go_nextra : N     (* requests seen by the server during the call *)
+  go_nbase : N; go_nextra : N; go_ntrace : N   (* requests seen by the server during the call *)
 }.
 Fixpoint get_seq (ch : chain) (cl : client) (ops : list (gop * gobs)) : bool :=
   match ops with
@@ -151,13 +151,13 @@ Fixpoint get_seq (ch : chain) (cl : client) (ops : list (gop * gobs)) : bool :=
   | (op, ob) :: r =>
       match cget ch op cl with
       | None => false
-      | Some (cl1, res, nb, nx) =>
+      | Some (cl1, res, nb, nx, nt) =>
           (match res, go_res ob with
            | GErr, None => true
            | GOk bs, Some obs => blks_eqb bs obs
            | _, _ => false
            end)
-          && (nb =? go_nbase ob) && (nx =? go_nextra ob) && get_seq ch cl1 r
+          && (nb =? go_nbase ob) && (nx =? go_nextra ob) && (nt =? go_ntrace ob) && get_seq ch cl1 r
       end
   end.
 
@@ -173,13 +173,14 @@ Definition conc_cache_ok (mx : N) (G : N) (fetches : list (key * N * bool)) (ret
                 N.of_nat (length (filter (fun r => optN_eqb (snd r) (Some i)) rets)) <=? mx + G - 1) fetches.
 
 (* Client.Get: the caller's view of what it got equals the uncached result *)
-Definition view_blk (x : extra) (f : list N) (b : blk) : blk :=
+Definition view_blk (x : extra) (t : bool) (f : list N) (b : blk) : blk :=
   mkBlk (b_num b) (b_hash b) (b_time b)
-        (filter (fun t => negb (match t_logs t with [] => true | _ => false end))
-                (map (fun t => mkTx (t_idx t) (t_hash t) 0
+        (filter (fun t => negb (match t_logs t, t_traces t with [], [] => true | _, _ => false end))
+                (map (fun u => mkTx (t_idx u) (t_hash u) 0
                                     (fold_left (fun acc l => if existsb (fun u => l_idx u =? l_idx l) acc then acc
                                                              else acc ++ [l])
-                                               (filter (want x f) (t_logs t)) []))
+                                               (filter (want x f) (t_logs u)) [])
+                                    (if t then t_traces u else []))
                      (sort_txs (b_txs b)))).
 Fixpoint ins_log (t : log) (l : list log) : list log :=
   match l with
@@ -187,18 +188,19 @@ Fixpoint ins_log (t : log) (l : list log) : list log :=
   | u :: r => if l_idx t <? l_idx u then t :: l else u :: ins_log t r
   end.
 Definition sort_logs (l : list log) : list log := fold_left (fun acc t => ins_log t acc) l [].
-Definition view_canon (x : extra) (f : list N) (b : blk) : blk :=
-  let v := view_blk x f b in
+Definition view_canon (x : extra) (t : bool) (f : list N) (b : blk) : blk :=
+  let v := view_blk x t f b in
   mkBlk (b_num v) (b_hash v) (b_time v)
-        (map (fun t => mkTx (t_idx t) (t_hash t) 0 (sort_logs (t_logs t))) (b_txs v)).
-Definition view_eqb (x : extra) (f : list N) (a b : list blk) : bool :=
-  list_eqb blk_eqb (map (view_canon x f) a) (map (view_canon x f) b).
+        (map (fun u => mkTx (t_idx u) (t_hash u) 0 (sort_logs (t_logs u)) (t_traces u)) (b_txs v)).
+Definition view_eqb (x : extra) (t : bool) (f : list N) (a b : list blk) : bool :=
+  list_eqb blk_eqb (map (view_canon x t f) a) (map (view_canon x t f) b).
 
-Definition conc_get_ok (ch : chain) (calls : list (option kind * extra * list N * key * option (list blk))) : bool :=
-  forallb (fun c => let '(b, x, f, k, res) := c in
+Definition conc_get_ok (ch : chain)
+  (calls : list (option kind * extra * bool * list N * key * option (list blk))) : bool :=
+  forallb (fun c => let '(b, x, t, f, k, res) := c in
                     match res with
                     | None => true
-                    | Some bs => view_eqb x f bs (uget ch b x f k)
+                    | Some bs => view_eqb x t f bs (uget ch b x t f k)
                     end) calls.
 
 Inductive case :=
@@ -210,7 +212,7 @@ Inductive case :=
 | CAttach (init : blk) (ops : list aop) (final : blk)
 | CGet (mx : N) (ch : list cblock) (ops : list (gop * gobs))
 | CConcCache (mx : N) (G : N) (fetches : list (key * N * bool)) (rets : list (key * option N))
-| CConcGet (ch : list cblock) (calls : list (option kind * extra * list N * key * option (list blk))).
+| CConcGet (ch : list cblock) (calls : list (option kind * extra * bool * list N * key * option (list blk))).
 
 Definition check (c : case) : bool :=
   match c with
